@@ -125,7 +125,7 @@ def tree_cases(run, rng, k):
     hps = [int(rng.integers(0, 20)) for _ in inds]
     if k % 4 == 3 and nslab > 1:
         hps[0] = 0
-    truth = gen_catalog.make_tree(rng, slab_inds=inds, halos_per_slab=hps, compression=[None, 'zlib', None, 'blsc'][k % 4], cleaned_away_prob=0.3, zero_part_prob=0.25, smallratio=True)
+    truth = gen_catalog.make_tree(rng, slab_inds=inds, halos_per_slab=hps, compression=[None, 'zlib', None, 'blsc'][k % 4], cleaned_away_prob=0.3, zero_part_prob=0.25, smallratio=True, clean_layout=[1, 3, 2, 4][k % 4])
     try:
         fsets = file_sets(rng, truth)
         fields_opts = ['DEFAULT_FIELDS', ['N', 'id', 'x_com'], ['id', 'sigmavMid_L2com', 'N'], 'all']
@@ -249,6 +249,37 @@ def rejections(run, truth):
         run.violation('duplicate-files-not-rejected', dict(result=repr(err)))
     else:
         run.count('documented_rejections_observed')
+    if len(inds) > 1:
+        f1 = os.path.join(hi, f'halo_info_{inds[1]:03d}.asdf')
+        cat, err = catoracle.load([f1, f0, f1], cleaned=False)
+        run.ev()
+        if not isinstance(err, ValueError):
+            run.violation('duplicate-files-not-rejected', dict(result=repr(err), files='[b, a, b]'))
+        else:
+            run.count('documented_rejections_observed')
+    # files of two different catalogues must not be mixed
+    other = gen_catalog.make_tree(np.random.default_rng(5), nslab=1, halos_per_slab=[3], root=truth['root'], sim='SimOther')
+    g0 = other['halo_fns'][0]
+    for lst in ([f0, g0], [g0, f0]):
+        run.ev()
+        cat, err = catoracle.load(lst, cleaned=False)
+        if not isinstance(err, ValueError):
+            run.violation('mixed-catalogues-not-rejected', dict(result=repr(err)))
+        else:
+            run.count('documented_rejections_observed')
+    # an explicit cleandir gives the same catalogue as the automatic search
+    a, e1 = catoracle.load(truth['path'], cleaned=True, subsamples=dict(A=True, pid=True), fields=['N', 'id'])
+    b, e2 = catoracle.load(truth['path'], cleaned=True, subsamples=dict(A=True, pid=True), fields=['N', 'id'], cleandir=truth['cleandir'])
+    run.ev(2)
+    if e1 or e2:
+        run.violation('load-fails-' + type(e1 or e2).__name__, dict(error=str(e1 or e2)[:200], cleandir='explicit vs automatic', clean_layout=truth.get('clean_layout')))
+    elif not (catoracle.eq_nan(np.asarray(a.halos['N']), np.asarray(b.halos['N'])) and catoracle.eq_nan(np.asarray(a.subsamples['pid']), np.asarray(b.subsamples['pid']))):
+        run.violation('cleandir-explicit-differs', dict(clean_layout=truth.get('clean_layout')))
+    # a missing path is reported as such
+    cat, err = catoracle.load(os.path.join(hi, 'halo_info_999.asdf'), cleaned=False)
+    run.ev()
+    if not isinstance(err, FileNotFoundError):
+        run.violation('missing-file-not-reported', dict(result=repr(err)))
 
 
 def lc_cases(run, rng, k):
